@@ -22,7 +22,7 @@ type seqParams struct {
 
 func genSeq(p seqParams) func(r *rand.Rand, tier string) *Case {
 	return func(r *rand.Rand, tier string) *Case {
-		c := &Case{Seed: r.Uint64(), Policy: "seq", HashMod: pick(r, 1, 3, 250), NoLat: true}
+		c := &Case{Seed: r.Uint64(), Policy: "seq", HashMod: pick(r, 1, 3, 250), NoLat: true, BackScan: true}
 		c.Stores = p.stores(r)
 		keyspace := p.keyspaces[r.IntN(len(p.keyspaces))]
 		base := 1
@@ -222,7 +222,7 @@ func oracleSeq(c *Case, res *Result) []Violation {
 				add("final-count/"+vtag(sp), fmt.Sprintf("final Count() of %s = %d, model has %d items", sp.Name, d.Count, len(w)))
 			}
 			// backward scan must be the reverse
-			if !sameSeq(d.Back, w, true) {
+			if c.BackScan && !sameSeq(d.Back, w, true) {
 				add("final-backward/"+vtag(sp), fmt.Sprintf("backward scan of %s: [%s], model (forward): [%s]", sp.Name, kvString(d.Back), kvString(w)))
 			}
 		}
